@@ -55,6 +55,8 @@ package interpreter
 // ---- arbitrary-precision Int and UInt (C11, C13, C18, C32)
 //@ typenum IntValue: num(self.IntValue)
 //@ typeinv IntValue: valid(self.IntValue)
+//@ typeattr IntValue: wraps=0, haslo=0, hashi=0, lo=0, hi=0
+//@ typeattr UIntValue: wraps=0, haslo=1, hashi=0, lo=0, hi=0
 //@ typenum UIntValue: big(self.BigInt)
 //@ typeinv UIntValue: self.BigInt != nil && big(self.BigInt) >= 0
 //@ func NewUIntValueFromBigInt
@@ -255,61 +257,81 @@ package interpreter
 // C11/C18 prove per concrete type; assumed here.)
 //@ spec outofty(x, r) = (ghostof(x, "haslo") != 0 && r < ghostof(x, "lo")) || (ghostof(x, "hashi") != 0 && r > ghostof(x, "hi"))
 //@ spec samety(a, b) = kind(a) == kind(b) && ghostof(a, "haslo") == ghostof(b, "haslo") && ghostof(a, "hashi") == ghostof(b, "hashi") && ghostof(a, "wraps") == ghostof(b, "wraps") && (ghostof(a, "haslo") != 0 ==> ghostof(a, "lo") == ghostof(b, "lo")) && (ghostof(a, "hashi") != 0 ==> ghostof(a, "hi") == ghostof(b, "hi"))
-// the bounds of the concrete integer kinds (Int: none; UInt: lower bound only)
-//@ spec tybounds(a) = (kind(a) == Int8Value ==> ghostof(a, "wraps") == 0 && ghostof(a, "haslo") == 1 && ghostof(a, "hashi") == 1 && ghostof(a, "lo") == -pow2(7) && ghostof(a, "hi") == pow2(7)-1) && (kind(a) == Int16Value ==> ghostof(a, "wraps") == 0 && ghostof(a, "haslo") == 1 && ghostof(a, "hashi") == 1 && ghostof(a, "lo") == -pow2(15) && ghostof(a, "hi") == pow2(15)-1) && (kind(a) == Int32Value ==> ghostof(a, "wraps") == 0 && ghostof(a, "haslo") == 1 && ghostof(a, "hashi") == 1 && ghostof(a, "lo") == -pow2(31) && ghostof(a, "hi") == pow2(31)-1) && (kind(a) == Int64Value ==> ghostof(a, "wraps") == 0 && ghostof(a, "haslo") == 1 && ghostof(a, "hashi") == 1 && ghostof(a, "lo") == -pow2(63) && ghostof(a, "hi") == pow2(63)-1) && (kind(a) == Int128Value ==> ghostof(a, "wraps") == 0 && ghostof(a, "haslo") == 1 && ghostof(a, "hashi") == 1 && ghostof(a, "lo") == -pow2(127) && ghostof(a, "hi") == pow2(127)-1) && (kind(a) == Int256Value ==> ghostof(a, "wraps") == 0 && ghostof(a, "haslo") == 1 && ghostof(a, "hashi") == 1 && ghostof(a, "lo") == -pow2(255) && ghostof(a, "hi") == pow2(255)-1) && (kind(a) == UInt8Value ==> ghostof(a, "wraps") == 0 && ghostof(a, "haslo") == 1 && ghostof(a, "hashi") == 1 && ghostof(a, "lo") == 0 && ghostof(a, "hi") == pow2(8)-1) && (kind(a) == UInt16Value ==> ghostof(a, "wraps") == 0 && ghostof(a, "haslo") == 1 && ghostof(a, "hashi") == 1 && ghostof(a, "lo") == 0 && ghostof(a, "hi") == pow2(16)-1) && (kind(a) == UInt32Value ==> ghostof(a, "wraps") == 0 && ghostof(a, "haslo") == 1 && ghostof(a, "hashi") == 1 && ghostof(a, "lo") == 0 && ghostof(a, "hi") == pow2(32)-1) && (kind(a) == UInt64Value ==> ghostof(a, "wraps") == 0 && ghostof(a, "haslo") == 1 && ghostof(a, "hashi") == 1 && ghostof(a, "lo") == 0 && ghostof(a, "hi") == pow2(64)-1) && (kind(a) == UInt128Value ==> ghostof(a, "wraps") == 0 && ghostof(a, "haslo") == 1 && ghostof(a, "hashi") == 1 && ghostof(a, "lo") == 0 && ghostof(a, "hi") == pow2(128)-1) && (kind(a) == UInt256Value ==> ghostof(a, "wraps") == 0 && ghostof(a, "haslo") == 1 && ghostof(a, "hashi") == 1 && ghostof(a, "lo") == 0 && ghostof(a, "hi") == pow2(256)-1) && (kind(a) == Word8Value ==> ghostof(a, "wraps") == 1 && ghostof(a, "haslo") == 1 && ghostof(a, "hashi") == 1 && ghostof(a, "lo") == 0 && ghostof(a, "hi") == pow2(8)-1) && (kind(a) == Word16Value ==> ghostof(a, "wraps") == 1 && ghostof(a, "haslo") == 1 && ghostof(a, "hashi") == 1 && ghostof(a, "lo") == 0 && ghostof(a, "hi") == pow2(16)-1) && (kind(a) == Word32Value ==> ghostof(a, "wraps") == 1 && ghostof(a, "haslo") == 1 && ghostof(a, "hashi") == 1 && ghostof(a, "lo") == 0 && ghostof(a, "hi") == pow2(32)-1) && (kind(a) == Word64Value ==> ghostof(a, "wraps") == 1 && ghostof(a, "haslo") == 1 && ghostof(a, "hashi") == 1 && ghostof(a, "lo") == 0 && ghostof(a, "hi") == pow2(64)-1) && (kind(a) == Word128Value ==> ghostof(a, "wraps") == 1 && ghostof(a, "haslo") == 1 && ghostof(a, "hashi") == 1 && ghostof(a, "lo") == 0 && ghostof(a, "hi") == pow2(128)-1) && (kind(a) == Word256Value ==> ghostof(a, "wraps") == 1 && ghostof(a, "haslo") == 1 && ghostof(a, "hashi") == 1 && ghostof(a, "lo") == 0 && ghostof(a, "hi") == pow2(256)-1) && (kind(a) == UIntValue ==> ghostof(a, "wraps") == 0 && ghostof(a, "haslo") == 1 && ghostof(a, "hashi") == 0 && ghostof(a, "lo") == 0) && (kind(a) == IntValue ==> ghostof(a, "wraps") == 0 && ghostof(a, "haslo") == 0 && ghostof(a, "hashi") == 0)
-//@ spec inty(a) = a != nil && implements(a, IntegerValue) && tybounds(a) && (ghostof(a, "haslo") != 0 ==> ghostof(a, "lo") <= mval(a)) && (ghostof(a, "hashi") != 0 ==> mval(a) <= ghostof(a, "hi"))
+// the bounds of the concrete integer kinds are declared per type (typeattr, in the per-type schemas) and are tied to
+// a symbolic value by its kind (Int: none; UInt: lower bound only)
+//@ spec inty(a) = a != nil && implements(a, IntegerValue) && valid(a) && (ghostof(a, "haslo") != 0 ==> ghostof(a, "lo") <= mval(a)) && (ghostof(a, "hashi") != 0 ==> mval(a) <= ghostof(a, "hi"))
+// The six interface contracts below are what the generic InclusiveRange code assumes of an unknown integer kind.
+// They are not assumed: `option refine=true` verifies every implementor's method body a second time against this
+// very text (obligations "<method>@NumberValue" etc. of C21), for all 20 integer kinds (expandfor=IntegerValue).
 //@ iface NumberValue.Plus
-//@   assumed
-//@   requires other != nil
+//@   option expand=true
+//@   option refine=true
+//@   option expandfor=IntegerValue
+//@   requires other != nil && valid(self) && (kind(other) == kind(self) ==> valid(other))
 //@   fails kind(other) != kind(self) => InvalidOperandsError
-//@   fails kind(other) == kind(self) && ghostof(self, "wraps") == 0 && outofty(self, mval(self) + mval(other)) => OverflowError|UnderflowError
-//@   ensures samety(result, self) && mval(result) == ite(ghostof(self, "wraps") != 0, emod(mval(self) + mval(other), ghostof(self, "hi") + 1), mval(self) + mval(other)) && result != nil
+//@   fails[C21] kind(other) == kind(self) && ghostof(self, "wraps") == 0 && outofty(self, mval(self) + mval(other)) => OverflowError|UnderflowError
+//@   ensures[C21] samety(result, self) && mval(result) == ite(ghostof(self, "wraps") != 0, emod(mval(self) + mval(other), ghostof(self, "hi") + 1), mval(self) + mval(other)) && result != nil && valid(result)
 //@   env MemoryMeteringError ComputationMeteringError
+//@   modifies ghost("metered")
 //@ iface NumberValue.Minus
-//@   assumed
-//@   requires other != nil
+//@   option expand=true
+//@   option refine=true
+//@   option expandfor=IntegerValue
+//@   requires other != nil && valid(self) && (kind(other) == kind(self) ==> valid(other))
 //@   fails kind(other) != kind(self) => InvalidOperandsError
-//@   fails kind(other) == kind(self) && ghostof(self, "wraps") == 0 && outofty(self, mval(self) - mval(other)) => OverflowError|UnderflowError
-//@   ensures samety(result, self) && mval(result) == ite(ghostof(self, "wraps") != 0, emod(mval(self) - mval(other), ghostof(self, "hi") + 1), mval(self) - mval(other)) && result != nil
+//@   fails[C21] kind(other) == kind(self) && ghostof(self, "wraps") == 0 && outofty(self, mval(self) - mval(other)) => OverflowError|UnderflowError
+//@   ensures[C21] samety(result, self) && mval(result) == ite(ghostof(self, "wraps") != 0, emod(mval(self) - mval(other), ghostof(self, "hi") + 1), mval(self) - mval(other)) && result != nil && valid(result)
 //@   env MemoryMeteringError ComputationMeteringError
+//@   modifies ghost("metered")
 //@ iface NumberValue.Mod
-//@   assumed
-//@   requires other != nil
+//@   option expand=true
+//@   option refine=true
+//@   option expandfor=IntegerValue
+//@   requires other != nil && valid(self) && (kind(other) == kind(self) ==> valid(other))
 //@   fails kind(other) != kind(self) => InvalidOperandsError
-//@   fails kind(other) == kind(self) && mval(other) == 0 => DivisionByZeroError
-//@   ensures samety(result, self) && mval(result) == trem(mval(self), mval(other)) && result != nil
+//@   fails[C21] kind(other) == kind(self) && mval(other) == 0 => DivisionByZeroError
+//@   ensures[C21] samety(result, self) && mval(result) == trem(mval(self), mval(other)) && result != nil && valid(result)
 //@   env MemoryMeteringError ComputationMeteringError
+//@   modifies ghost("metered")
 //@ iface ComparableValue.Less
-//@   assumed
-//@   requires other != nil
+//@   option expand=true
+//@   option refine=true
+//@   option expandfor=IntegerValue
+//@   requires other != nil && valid(self) && (kind(other) == kind(self) ==> valid(other))
 //@   fails kind(other) != kind(self) => InvalidOperandsError
-//@   ensures iff(result, mval(self) < mval(other))
-//@   env ComputationMeteringError
+//@   ensures[C21] iff(result, mval(self) < mval(other))
+//@   env MemoryMeteringError ComputationMeteringError
 //@ iface ComparableValue.Greater
-//@   assumed
-//@   requires other != nil
+//@   option expand=true
+//@   option refine=true
+//@   option expandfor=IntegerValue
+//@   requires other != nil && valid(self) && (kind(other) == kind(self) ==> valid(other))
 //@   fails kind(other) != kind(self) => InvalidOperandsError
-//@   ensures iff(result, mval(self) > mval(other))
-//@   env ComputationMeteringError
+//@   ensures[C21] iff(result, mval(self) > mval(other))
+//@   env MemoryMeteringError ComputationMeteringError
 //@ iface EquatableValue.Equal
-//@   assumed
+//@   option expand=true
+//@   option refine=true
+//@   option expandfor=IntegerValue
+//@   requires valid(self) && (kind(other) == kind(self) ==> valid(other))
 //@   nofail
-//@   ensures kind(other) == kind(self) ==> iff(result, mval(self) == mval(other))
-//@   env ComputationMeteringError
+//@   ensures[C21] kind(other) == kind(self) ==> iff(result, mval(self) == mval(other))
+//@   env MemoryMeteringError ComputationMeteringError
 
 // beyond(x, e): x is past the end e in the direction of the step
 //@ spec rbeyond(neg, x, e) = ite(neg, x < e, x > e)
 //@ func (*InclusiveRangeIterator).validate
 //@   requires inty(element) && inty(i.end) && samety(element, i.end)
 //@   nofail
-//@   env ComputationMeteringError
+//@   env MemoryMeteringError ComputationMeteringError
 //@   ensures[C21] iff(result == nil, rbeyond(i.stepNegative, mval(element), mval(i.end)))
-//@   ensures[C21] result != nil ==> mval(result) == mval(element) && samety(result, element)
+//@   ensures[C21] result != nil ==> mval(result) == mval(element) && samety(result, element) && inty(result)
 // Next yields the current element and advances by step; it must not fail while the element is within the
 // range, even when the end is the type's minimum or maximum (C21).
 //@ func (*InclusiveRangeIterator).stepExceedsEnd
 //@   inline
 //@ func (*InclusiveRangeIterator).Next
+//@   modifies ghost("metered")
 //@   requires inty(i.step) && inty(i.end) && samety(i.step, i.end)
 //@   requires inty(i.zero) && samety(i.zero, i.end) && mval(i.zero) == 0
 //@   requires mval(i.step) != 0 && iff(i.stepNegative, mval(i.step) < 0)
@@ -345,6 +367,7 @@ package interpreter
 //@ func isNeedleAfterStartUpToEnd
 //@   inline
 //@ func InclusiveRangeContains
+//@   modifies ghost("metered")
 //@   option split=16
 //@   casesplit rfield(3) > 0 | rfield(3) < 0
 //@   requires needleValue != nil && inty(needleValue) && kind(needleValue) == rfield(0) && ghostof(rangeType.ElementType, "ikind") == rfield(0)
@@ -365,12 +388,17 @@ package interpreter
 //@   ensures ghostof(result, "ikind") == kind(self)
 // A new iterator starts at the range's start and satisfies the invariant that Next requires and keeps.
 //@ func NewInclusiveRangeIterator
+//@   modifies ghost("metered")
 //@   requires ghostof(typ.ElementType, "ikind") == rfield(0)
 //@   requires rfield(3) != 0 && (rfield(1) < rfield(2) ==> rfield(3) > 0) && (rfield(1) > rfield(2) ==> rfield(3) < 0)
 //@   nofail
 //@   env MemoryMeteringError ComputationMeteringError
 //@   ensures[C21] result != nil && result.next != nil && mval(result.next) == rfield(1) && mval(result.end) == rfield(2) && mval(result.step) == rfield(3) && mval(result.zero) == 0 && iff(result.stepNegative, rfield(3) < 0)
-//@   ensures[C21] inty(result.next) && inty(result.step) && inty(result.end) && inty(result.zero) && samety(result.next, result.end) && samety(result.step, result.end) && samety(result.zero, result.end)
+//@   ensures[C21] inty(result.next)
+//@   ensures[C21] inty(result.step)
+//@   ensures[C21] inty(result.end)
+//@   ensures[C21] inty(result.zero)
+//@   ensures[C21] samety(result.next, result.end) && samety(result.step, result.end) && samety(result.zero, result.end)
 // Construction: rejected exactly when the step is zero or leads away from the end.
 //@ func createInclusiveRange
 //@   assumed
@@ -380,6 +408,7 @@ package interpreter
 //@ func isSequenceMovingAwayFromEnd
 //@   inline
 //@ func NewInclusiveRangeValueWithStep
+//@   modifies ghost("metered")
 //@   requires inty(start) && inty(end) && inty(step) && samety(start, end) && samety(step, end)
 //@   fails[C21] mval(step) == 0 || (mval(start) < mval(end) && mval(step) < 0) || (mval(start) > mval(end) && mval(step) > 0) => InclusiveRangeConstructionError
 //@   env MemoryMeteringError ComputationMeteringError
